@@ -89,12 +89,6 @@ inductive TilesLoose (inp : Input) : List Leaf → Nat → Nat → Prop
   | cons {l : Leaf} {ls : List Leaf} {i j : Nat} :
       LeafAt inp i l → TilesLoose inp ls (i + l.width) j → TilesLoose inp (l :: ls) i j
 
-/-- `scanImpl` with the missing guard: a payload terminal is only scanned on a cell boundary -/
-def scanAligned (inp : Input) (t : Term) (k : Nat) : Option (Nat × Leaf) :=
-  match t with
-  | .lit (.bit _) => scanImpl inp t k
-  | _ => if k % 8 = 0 then scanImpl inp t k else none
-
 /-- the terminals of the grammar have the type of the input (text literals for `str`, bytes literals
     for `bytes`); bit literals always.  (`Terminal.check` coerces the other combinations through
     Latin-1; the harness normalises the grammar the same way before it asks the checker.) -/
@@ -159,7 +153,7 @@ def noHelperL : List Tree → Bool
 end
 
 /-- a rule of the compiled table is an alternative of its nonterminal -/
-theorem mem_compile {G : Grammar} {cap : Nat} {x : NT} {rhs : List ESym}
+theorem mem_compile {G : Grammar} {cap : Option Nat} {x : NT} {rhs : List ESym}
     (h : (x, rhs) ∈ compile G cap) : rhs ∈ rulesOf G cap x := by
   unfold compile at h
   rw [List.mem_flatMap] at h
